@@ -349,9 +349,13 @@ func (c *ctx) addressLaws(fam, shape string, p types.SpendPolicy, allSubsetsUpTo
 		}
 	}
 	singles := paths
-	if len(singles) > 24 {
+	maxSingles := 24
+	if len(paths) > 64 {
+		maxSingles = 8
+	}
+	if len(singles) > maxSingles {
 		singles = nil
-		for i := 0; i < 24; i++ {
+		for i := 0; i < maxSingles; i++ {
 			singles = append(singles, paths[c.r.IntN(len(paths))])
 		}
 	}
